@@ -1,6 +1,186 @@
-/- Driver/C13 — stub until the property's model driver is written. -/
+/-
+Driver/C13 — runs the executable models of the version-service client (Model/Fallback,
+Model/TcpRead) on the protocol lines of harness/src/bin/c13.rs.
+
+The table `outcome` below is the model's reading of the mock servers' behaviours: which
+`ProtocolError` class (or document) each behaviour produces in `TactClient::query` /
+`RibbitClient::query` — `reqwest`, `mail_parser` and the BPSV parser are outside the model, this
+table is their stated law and is exercised against the real libraries by every run.
+-/
 import Driver.Common
-open Drv
+import Cascette.Model.Fallback
+import Cascette.Model.TcpRead
+open Cascette Drv
+open Cascette.Model.Fallback
+
+abbrev Doc := Nat × Nat   -- (sequence number, rows)
+
+inductive Beh where
+  | doc (id : Nat) | mime (id : Nat) | bad | status (code : Nat) | close | mid | trunc | stall | refuse
+
+def parseBeh (s : String) : Option Beh :=
+  match s with
+  | "bad" => some .bad
+  | "close" => some .close
+  | "mid" => some .mid
+  | "trunc" => some .trunc
+  | "stall" => some .stall
+  | "refuse" => some .refuse
+  | _ =>
+    if s.startsWith "doc:" then (s.drop 4).toString.toNat?.map .doc
+    else if s.startsWith "mime:" then (s.drop 5).toString.toNat?.map .mime
+    else if s.startsWith "s" then
+      let r := (s.drop 1).toString
+      let num := if r.endsWith "ra" then (r.dropEnd 2).toString else r
+      match num.toNat? with
+      | some c => if 200 ≤ c ∧ c ≤ 599 then some (.status c) else none
+      | none => none
+    else none
+
+/-- outcome of contacting an HTTP (TACT) endpoint that behaves as `b`. -/
+def httpOutcome : Beh → Except Err Doc
+  | .doc id => tactClassify 200 (some (id, 2))
+  | .mime _ => tactClassify 200 (none : Option Doc)     -- a MIME body is not a BPSV table
+  | .bad => tactClassify 200 (none : Option Doc)
+  | .status c => tactClassify c (none : Option Doc)     -- body of the mock is never a table
+  | .close | .mid | .trunc => .error .httpDropped
+  | .stall => .error .httpTimeout
+  | .refuse => .error .httpConnect
+
+/-- outcome of contacting the Ribbit TCP endpoint that behaves as `b`. -/
+def tcpOutcome : Beh → Except Err Doc
+  | .doc id => .ok (id, 2)
+  | .mime id => .ok (id, 2)
+  | .bad | .status _ | .close | .mid => .error .parse
+  | .trunc => .ok (7, 1)                                -- cut at a row boundary: parses
+  | .stall => .error .timeout
+  | .refuse => .error .network
+
+def errName : Err → String
+  | .network => "network" | .httpTimeout => "http-timeout" | .httpConnect => "http-connect"
+  | .httpDropped => "http-dropped" | .httpOther => "http-other" | .parse => "parse" | .cache => "cache"
+  | .allHostsFailed => "all-hosts-failed"
+  | .rateLimited h => if h then "ratelimited:hint" else "ratelimited"
+  | .serviceUnavailable => "unavailable"
+  | .httpStatus c => s!"status:{c}" | .serverError c => s!"server:{c}"
+  | .invalidKey => "invalid-key" | .invalidEndpoint => "invalid-endpoint" | .rangeNotSupported => "range"
+  | .timeout => "timeout" | .other => "other" | .utf8 => "utf8" | .unsupportedOnWasm => "wasm"
+
+def parseErr : List String → Option Err
+  | ["network"] => some .network | ["parse"] => some .parse | ["cache"] => some .cache
+  | ["all-hosts-failed"] => some .allHostsFailed
+  | ["ratelimited"] => some (.rateLimited false) | ["ratelimited:hint"] => some (.rateLimited true)
+  | ["unavailable"] => some .serviceUnavailable
+  | ["status", c] => (c.toNat?).bind fun n => if 100 ≤ n ∧ n ≤ 999 then some (.httpStatus n) else none
+  | ["server", c] => (c.toNat?).bind fun n => if 100 ≤ n ∧ n ≤ 999 then some (.serverError n) else none
+  | ["invalid-key"] => some .invalidKey | ["invalid-endpoint"] => some .invalidEndpoint
+  | ["range"] => some .rangeNotSupported | ["timeout"] => some .timeout | ["other"] => some .other
+  | ["utf8"] => some .utf8 | ["wasm"] => some .unsupportedOnWasm
+  | _ => none
+
+structure St where
+  active : Bool
+  cfg : Config
+  down : Nat
+  ttls : Ttls
+  clients : Nat
+  cache : CState (List Nat) Doc
+
+def St.init : St := ⟨false, ⟨true, true⟩, 0, ⟨0, 0, 0⟩, 0, CState.empty true⟩
+
+def kv (s : String) : Option (String × String) :=
+  match s.splitOn "=" with
+  | [k, v] => some (k, v)
+  | _ => none
+
+def bit? (s : String) : Option Bool := if s == "1" then some true else if s == "0" then some false else none
+
+def parseBegin (toks : List String) : Option St := do
+  let kvs ← toks.mapM kv
+  if kvs.length ≠ 5 then none
+  let get (k : String) : Option String := (kvs.find? (·.1 == k)).map (·.2)
+  let mode ← get "mode"
+  let disk ← if mode == "disk" then some true else if mode == "mem" then some false else none
+  let https ← (← get "https") |> bit?
+  let http ← (← get "http") |> bit?
+  let down ← (← get "down").toNat?
+  if down > 7 then none
+  let ttl ← get "ttl"
+  match (ttl.splitOn ",").mapM (·.toNat?) with
+  | some [a, b, c] => some ⟨true, ⟨https, http⟩, down, ⟨a, b, c⟩, 1, CState.empty disk⟩
+  | _ => none
+
+def docName (d : Doc) : String := s!"{d.1}:{d.2}"
+
+def trName : Tr → String
+  | .https => "https" | .http => "http" | .tcp => "tcp"
+
+def isDown (down : Nat) : Tr → Bool
+  | .https => down % 2 == 1
+  | .http => down / 2 % 2 == 1
+  | .tcp => down / 4 % 2 == 1
+
+def handle (st : St) (toks : List String) : St × String :=
+  match toks with
+  | "begin" :: rest =>
+    match parseBegin rest with
+    | some s => (s, "ok")
+    | none => (st, "bad-op")
+  | ["new"] =>
+    if st.active then ({ st with clients := st.clients + 1 }, s!"ok:{st.clients}") else (st, "bad-op")
+  | ["corrupt", ep] =>
+    if st.active && st.cache.disk then
+      let (c, done) := corrupt st.cache (ep.toList.map Char.toNat)
+      ({ st with cache := c }, if done then "ok" else "nofile")
+    else (st, "bad-op")
+  | ["q", ci, t, ep, bh, bq, bt] =>
+    match ci.toNat?, t.toNat?, parseBeh bh, parseBeh bq, parseBeh bt with
+    | some ci, some t, some bh, some bq, some bt =>
+      if !st.active || ci ≥ st.clients then (st, "bad-op") else
+      let bh := if isDown st.down .https then Beh.refuse else bh
+      let bq := if isDown st.down .http then Beh.refuse else bq
+      let bt := if isDown st.down .tcp then Beh.refuse else bt
+      let o : Tr → Except Err Doc := fun
+        | .https => httpOutcome bh
+        | .http => httpOutcome bq
+        | .tcp => tcpOutcome bt
+      let visible : Tr → Bool := fun
+        | .https => match bh with | .refuse => false | _ => true
+        | .http => match bq with | .refuse => false | _ => true
+        | .tcp => match bt with | .refuse => false | _ => true
+      let e := classifyEp st.ttls (ep.toList.map Char.toNat)
+      let (c1, trace, r) := query st.cfg st.cache ci t e o
+      let vis := (trace.filter visible).map trName
+      let traceS := if vis.isEmpty then "-" else ",".intercalate vis
+      let resS := match r with
+        | .ok d => "ok:" ++ docName d
+        | .error e => "err:" ++ errName e
+      -- the harness then looks into the cache through the same client (`ProtocolCache::get`)
+      let (c2, g) := cacheGet c1 ci e.key t
+      let cacheS := match g with
+        | .error _ => "err"
+        | .ok none => "miss"
+        | .ok (some .junk) => "junk"
+        | .ok (some (.doc d)) => "hit:" ++ docName d
+      ({ st with cache := c2 }, s!"trace={traceS} res={resS} cache={cacheS}")
+    | _, _, _, _, _ => (st, "bad-op")
+  | "retry" :: cls =>
+    match parseErr cls with
+    | some e => (st, toString (shouldRetry e))
+    | none => (st, "bad-op")
+  | ["ismime", h] =>
+    match parseHexNat h with
+    | some b => (st, toString (Model.TcpRead.isV1Mime b))
+    | none => (st, "bad-op")
+  | "tcp" :: segs =>
+    match segs.mapM parseHexNat with
+    | some ss =>
+      if ss.isEmpty || ss.any (·.length > 8192) || (ss.length > 1 && ss.any (·.isEmpty)) then (st, "bad-op") else
+      match Model.TcpRead.readLoop ss with
+      | .ok b => (st, "ok:" ++ hexOfNats b)
+      | .tooLarge => (st, "err:parse")
+    | none => (st, "bad-op")
+  | _ => (st, "bad-op")
 
 def main : IO Unit := do
-  loopPure (← IO.getStdin) (← IO.getStdout) (fun _ => "bad-op")
+  loopState (← IO.getStdin) (← IO.getStdout) handle St.init
